@@ -2379,6 +2379,34 @@ func checkSpellingLookupOnCleanText(c *Ctx, p *core.Prog) {
 				}
 				c.R.Check(raw == "", "R06.7", core.ShortFn(fn)+": the spelling table is consulted with the cleaned word", p.Pos(lk.Pos()),
 					"the key is computed from the word (not the raw parameter)", "the key is the raw word "+raw+" as it was buffered, punctuation included: a variant spelling next to punctuation (\"licence,\") is not mapped")
+				// R06.12: ... and for every word, whatever its length: the table decides which words have a variant, a length
+				// test in front of it silently switches off the entries on the wrong side of the bound
+				lenGuard := ""
+				for db := range core.NewPostDom(fn).TransitiveControlDeps()[b] {
+					ifi, isIf := db.Instrs[len(db.Instrs)-1].(*ssa.If)
+					if !isIf {
+						continue
+					}
+					bo, isBo := ifi.Cond.(*ssa.BinOp)
+					if !isBo {
+						continue
+					}
+					for _, pair := range [][2]ssa.Value{{bo.X, bo.Y}, {bo.Y, bo.X}} {
+						call, isCall := pair[0].(*ssa.Call)
+						if !isCall {
+							continue
+						}
+						bi, isB := call.Call.Value.(*ssa.Builtin)
+						if !isB || bi.Name() != "len" || !isString(call.Call.Args[0].Type()) {
+							continue
+						}
+						if k, isK := core.ConstInt(pair[1]); isK && k > 0 && (sameExpr(call.Call.Args[0], lk.Index, 0) || core.Unspill(call.Call.Args[0]) == core.Unspill(lk.Index)) {
+							lenGuard = p.Pos(bo.Pos())
+						}
+					}
+				}
+				c.R.Check(lenGuard == "", "R06.12", core.ShortFn(fn)+": the spelling table is consulted for words of every length", p.Pos(lk.Pos()),
+					"no length test on the word stands in front of the lookup", "the lookup only happens behind a test of the word's length ("+lenGuard+"): the pairs on the other side of the bound (whilst/while, centre/center, favour/favor ...) are never replaced")
 			}
 		}
 	}
